@@ -105,7 +105,12 @@ ALSO_SERVES = {
             # a cached (finalized) canvas refuses to be padded / trimmed, and padding a wrapper never writes to the lists it shares with the cached canvas
             "urwid/canvas.py:CompositeCanvas.pad_trim_left_right#real-fields", "urwid/canvas.py:CompositeCanvas.pad_trim_top_bottom#real-fields"],
     "C17": ["urwid/display/common.py:AttrSpec.__init__", "urwid/display/common.py:AttrSpec.__set_background"],
-    "C03": ["urwid/util.py:calc_trim_text", "urwid/str_util.py:calc_text_pos", "urwid/str_util.py:calc_width"],
+    "C03": ["urwid/util.py:calc_trim_text", "urwid/str_util.py:calc_text_pos", "urwid/str_util.py:calc_width",
+            # "every character once, in order": the layout cuts lines at offsets found by calc_text_pos (which asks within_double_byte
+            # whether a column falls inside a double-byte character) and backs up over characters with move_prev_char / move_next_char /
+            # is_wide_char (text_layout.py calculate_text_segments); seed C03-f1 (lead byte 0x81) sat in within_double_byte
+            "urwid/str_util.py:within_double_byte", "urwid/str_util.py:move_prev_char", "urwid/str_util.py:move_next_char",
+            "urwid/str_util.py:is_wide_char", "urwid/str_util.py:decode_one"],
     "C04": ["urwid/util.py:calc_trim_text"],
 }
 # C16 "the monitored lists used for container contents": the callbacks those lists call in their owners.  The validators
